@@ -601,9 +601,9 @@ static void c20_repair(bool thorough, int shard, int nshards, long start) {
     };
     rec(0);
   };
-  gen(2, thorough ? 12 : 9);
+  gen(2, thorough ? 12 : 10);
   gen(3, thorough ? 8 : 6);
-  ksample(fmt("{\"component\":\"RePair\",\"family\":\"all 0-terminated string sequences over {1,2} with <= %d symbols and over {1,2,3} with <= %d symbols, any order\"}", thorough ? 12 : 9, thorough ? 8 : 6));
+  ksample(fmt("{\"component\":\"RePair\",\"family\":\"all 0-terminated string sequences over {1,2} with <= %d symbols and over {1,2,3} with <= %d symbols, any order\"}", thorough ? 12 : 10, thorough ? 8 : 6));
   // shapes: runs, (ab)^j, Fibonacci words, single string, no repeated pair
   std::vector<std::pair<str, std::vector<int>>> shapes;
   for (int j = 1; j <= (thorough ? 12 : 8); j++) { std::vector<int> r((size_t)1 << j, 7); r.push_back(0); shapes.push_back({fmt("run 7^%d", 1 << j), r});
